@@ -1377,7 +1377,7 @@ impl GrafeoDB {
             label_count: self.store.label_count(),
             edge_type_count: self.store.edge_type_count(),
             property_key_count: self.store.property_key_count(),
-            index_count: 0, // TODO: implement index tracking
+            index_count: self.store.index_count(),
             memory_bytes: self.buffer_manager.allocated(),
             disk_bytes,
         }
